@@ -400,6 +400,13 @@ def check_position(ctx, exc, candidates, text_for_detail, only_file=None):
     """
     exc: MOFCompileError.  candidates: {file name or None: text}.  Reports
     position failures through ctx.fail and returns a class label.
+
+    For errors raised in a grammar production (dependency, repository and
+    value errors) the agreement of context and lineno is judged in the
+    strings sub-check only: it fails for nearly all of them on multi-line
+    input for one reason (lineno is the lexer's current line, the context
+    starts at offset 0 because PLY does not track positions of
+    non-terminals), and one report of that is enough.
     """
     ln, col, fname, cx = exc.lineno, exc.column, exc.file, exc.context
 
@@ -436,6 +443,8 @@ def check_position(ctx, exc, candidates, text_for_detail, only_file=None):
         return 'pos:bad'
     want = line.strip('\r\n')
     if cx[-2].strip('\r\n') != want:
+        if kind == 'production' and ctx.sub != 'strings':
+            return 'pos:production-context-unchecked'
         if kind == 'production':
             fail('production-error:context-is-not-line-lineno',
                  'line %d is %r' % (ln, want))
